@@ -200,7 +200,7 @@ func (c *Ctx) relVal(a, b Val, mode string, assumeSide bool) string {
 	}
 	switch a.K {
 	case KInt:
-		if a.Byte && mode == "upeq" {
+		if mode == "upeq" {
 			return sEq(sUp(a.C[0]), sUp(b.C[0]))
 		}
 		return sEq(a.C[0], b.C[0])
@@ -346,7 +346,7 @@ func relKeeps(cl *Clause) bool {
 	}
 	for _, t := range cl.Tags {
 		switch t {
-		case "C01", "C02", "C16", "C10", "C11":
+		case "C01", "C02", "C16", "C17", "C10", "C11":
 			return true
 		}
 	}
@@ -414,7 +414,7 @@ func (r *Rel) loopHead(fr *Frame, li *LoopInfo, entry *State, reach string, head
 	c := fr.c
 	k := r.key(fr, fmt.Sprintf("loop%d", li.ordinal))
 	li.relKey = k
-	rec := &relLoopRec{fr: fr, li: li, entry: entry.clone(), entryReach: reach, head: head, headReach: reach, cells: cells, heapRefs: heapRefs}
+	rec := &relLoopRec{fr: fr, li: li, entry: entry.clone(), entryReach: reach, head: head.clone(), headReach: reach, cells: cells, heapRefs: heapRefs}
 	for sf := range heapRefs {
 		rec.heapKeys = append(rec.heapKeys, sf)
 	}
@@ -435,6 +435,9 @@ func (r *Rel) loopHead(fr *Frame, li *LoopInfo, entry *State, reach string, head
 	hrel := r.relLoopState(c, a, rec, a.head, rec.head, true)
 	r.memoOn = false
 	c.assume(sImp(both, hrel))
+	// vacuity canary: with the relation assumed, both runs can still be at this loop head
+	cn := c.oblige(fr.oname("rel/vacuity", lname+"-head"), "canary", r.tags, both, "false", 0, "a pair of related runs at this loop head must exist")
+	cn.Canary = true
 }
 
 func (r *Rel) backEdge(fr *Frame, li *LoopInfo, st *State, cond string) {
@@ -693,6 +696,15 @@ func (r *Rel) ext(fr *Frame, name string, args []Val, res Val, reach string) {
 		if r.proveOnly(c, k+":identical", sImp(both, same)) || r.proveOnly(c, k+":same-matches", sImp(both, prem)) {
 			c.assume(sImp(both, sEq(a.res.C[0], res.C[0])))
 		}
+	case "strings.ReplaceAll":
+		// removing NUL bytes: NUL is not a letter, so it sits at the same indices in both runs
+		r.used[name+"(s, NUL, \"\"): case-equivalent (identical) arguments give case-equivalent (identical) results"] = true
+		c.assume(sImp(sAnd(both, c.relVal(a.args[0], args[0], "upeq", false)), c.relVal(a.res, res, "upeq", true)))
+		c.assume(sImp(sAnd(both, c.relVal(a.args[0], args[0], "eq", false)), c.relVal(a.res, res, "eq", true)))
+	case "strings.TrimLeftFunc":
+		// the predicate (r <= 32 || r >= 127) does not distinguish the cases of a letter
+		r.used[name+": case-equivalent arguments are trimmed by the same amount"] = true
+		c.assume(sImp(sAnd(both, c.relVal(a.args[0], args[0], "upeq", false)), sAnd(sEq(a.res.C[1], res.C[1]), sEq(a.res.C[2], res.C[2]))))
 	case "strings.ToUpper", "strings.ToLower":
 		// case-equivalent arguments have identical images (ASCII letters fold, every other byte is the same)
 		r.used[name+": case-equivalent arguments give identical results"] = true
@@ -762,7 +774,7 @@ func (pr *Program) verifyRelational(fn *ssa.Function) *Ctx {
 		if *flagVerbose {
 			fmt.Printf("  %s: round %d: %d lemmas, %d not proved\n", pr.funcName(fn), round, len(c.rel.pending), bad)
 		}
-		if bad == 0 || round >= 6 {
+		if bad == 0 || round >= 4 {
 			if bad != 0 {
 				c.errorf("%s: relational lemmas did not stabilise", pr.funcName(fn))
 			}
@@ -921,7 +933,7 @@ func (pr *Program) verifyRelationalOnce(fn *ssa.Function, deny map[string]bool) 
 	// keep only the relational obligations: the unary ones belong to the other modes
 	var keep []*Obl
 	for _, o := range c.obls {
-		if o.Kind == "rel" || (o.Canary && strings.Contains(o.Name, "/rel/")) {
+		if o.Kind == "rel" || (o.Canary && strings.Contains(o.Name, "rel/vacuity")) {
 			keep = append(keep, o)
 		}
 	}
